@@ -50,6 +50,7 @@ type logsCase struct {
 	StepMs  int64  `json:"step_ms"`
 	Forward bool   `json:"forward,omitempty"`
 	Streams []Strm `json:"streams"`
+	Ver     VerCfg `json:"ver"`
 }
 
 var logQueries = []string{
@@ -242,6 +243,7 @@ func genLogs(rt *rapid.T) logsCase {
 		c.Query = logQueries[rapid.IntRange(0, len(logQueries)-1).Draw(rt, "lq")]
 	}
 	c.Streams = genLogStreams(rt, c.Win)
+	c.Ver = genVer(rt)
 	return c
 }
 
@@ -349,9 +351,10 @@ func predLogs(c logsCase, o *evid.Obs) error {
 		kind += "/instant"
 	}
 	o.Tag(kind)
+	o.Tag(c.Ver.tags(w, "v5", "v3_1")...)
 
 	run := func(st *logStore) (string, []stmtRec, error) {
-		rd, be := newReader(st.db, c.Cluster)
+		rd, be := newReader(st.db, c.Cluster, c.Ver, w)
 		defer rd.Close()
 		var doc string
 		var qerr error
